@@ -129,6 +129,7 @@ class UnitResult(object):
         self.solver_checks = 0
         self.solver_seconds = 0.0
         self.fd_points = 0
+        self.second = {}
         self.crash = None
 
     def to_json(self):
@@ -153,6 +154,7 @@ class UnitResult(object):
             "solver_checks": self.solver_checks,
             "solver_seconds": round(self.solver_seconds, 3),
             "fd_points": self.fd_points,
+            "second_opinion": dict(self.second),
             "crash": self.crash,
         }
 
@@ -247,6 +249,7 @@ def verify(contract, case=None, max_seconds=None):
     res.solver_checks = engine.stats.checks
     res.solver_seconds = engine.stats.seconds
     res.fd_points = int(engine.stats.fd.get("points", 0))
+    res.second = dict(engine.stats.second)
     return res
 
 
@@ -331,4 +334,5 @@ def run_lemma(name, fn, case, max_paths=400, max_seconds=900):
     res.solver_checks = engine.stats.checks
     res.solver_seconds = engine.stats.seconds
     res.fd_points = int(engine.stats.fd.get("points", 0))
+    res.second = dict(engine.stats.second)
     return res
